@@ -1,6 +1,7 @@
 //! C16: CSV import books each row with the right sign, amount and balance.
 //! One YAML document + a generated CSV statement -> load_from_yaml / select -> import::import ->
 //! to_double_entry -> printed as ImportCmd does -> report::process over funding + that text.
+use crate::caldate;
 use crate::coq::{self, Shards, Stats};
 use crate::impgen::*;
 use crate::prng::Rng;
@@ -371,7 +372,10 @@ pub fn gen_case(r: &mut Rng) -> Case16 {
     let mut balances: BTreeMap<String, Decimal> = BTreeMap::new();
     let mut opening: Vec<(String, String)> = Vec::new();
     let n_rows = 1 + r.below(8);
-    let mut day = r.below(300) as i64;
+    // the rows start a few days before a calendar boundary drawn on purpose (New Year incl. the
+    // days whose ISO week belongs to the other year, leap day, month end, 1900 / 2100) and run across it
+    let start = caldate::gen_anchor(r, caldate::YEAR_LO, caldate::YEAR_HI, 12, 250);
+    let mut day = 0i64;
     let wrong_balance_at = if r.chance(1, 14) { Some(r.below(n_rows)) } else { None };
     // one numeric cell of one row in a notation okane's number grammar does not know, or with
     // trailing junk: the statement must be refused (or that very figure booked), never another figure
@@ -385,7 +389,15 @@ pub fn gen_case(r: &mut Rng) -> Case16 {
     let mut rows: Vec<Vec<String>> = Vec::new();
     for i in 0..n_rows {
         day += *r.pick(&[0i64, 0, 1, 1, 2, 5, 30]);
-        let date = chrono::NaiveDate::from_ymd_opt(2021, 1, 1).unwrap() + chrono::Duration::days(day);
+        let date = start + chrono::Duration::days(day);
+        shapes.push(match caldate::class_of(date) {
+            "iso_week_year_differs" => "date:iso_week_year_differs",
+            "year_first_last" => "date:year_first_last",
+            "leap_day" => "date:leap_day",
+            "month_end" => "date:month_end",
+            "month_start" => "date:month_start",
+            _ => "date:ordinary",
+        });
         let comm = if optional.contains(&K_COMMODITY) && r.chance(1, 2) { other_comm.clone() } else { primary.clone() };
         if !balances.contains_key(&comm) {
             let b0 = if r.chance(1, 4) { Decimal::ZERO } else { Decimal::new(r.below(2_000_000) as i64, 2) };
@@ -509,6 +521,20 @@ pub fn gen_case(r: &mut Rng) -> Case16 {
                     _ => String::new(),
                 },
             });
+        }
+        // free-text cells (payee, category, note, ignored columns) beginning with a character some
+        // CSV dialect or spreadsheet treats specially; the cell of the first column more often, as
+        // that is where a comment mark would take the whole record away
+        for (ci, c) in cols.iter().enumerate() {
+            let texty = matches!(c, None | Some(K_PAYEE) | Some(K_CATEGORY) | Some(K_NOTE));
+            if texty && r.chance(if ci == 0 { 3 } else { 1 }, 8) {
+                let lead = *r.pick(&["#", "#", "# ", "\"", "'", ";", "=", "+", "-", "@", " ", "\t", "\u{feff}", "//", "%", "|", ","]);
+                rec[ci] = format!("{}{}", lead, rec[ci]);
+                shapes.push(if ci == 0 { "first_cell:special_start" } else { "text_cell:special_start" });
+                if ci == 0 && lead.starts_with('#') {
+                    shapes.push("first_cell:starts_with_#");
+                }
+            }
         }
         if let Some((ji, jk)) = junk_at {
             if ji == i {
@@ -707,7 +733,7 @@ fn corpus_cases(o: &Opts) -> (Vec<Case16>, bool) {
 pub fn run(o: &Opts) {
     let mut st = Stats::new();
     let mut sh = Shards::new(&o.out, if o.thorough { o.shards * 6 } else { o.shards }, &format!("{} Run.Classify_C16.\nImport ListNotations.\nOpen Scope N_scope.", crate::c17::HEADER));
-    st.rule = "CSV statements generated from 1-8 chronological rows with a running balance per commodity, written under a random layout (columns shuffled with junk columns; fields by index / label / template; delimiter default , ; tab; 0-2 skipped head lines; four date formats; amount or credit/debit columns; optional category, note, balance, commodity, rate, secondary amount, secondary commodity, charge columns; plain / grouped / `$`-prefixed / commodity-code-prefixed / commodity-suffixed numbers; under the prefixed styles amount, credit, debit, balance, charge and secondary-amount cells carry the minus sign before the prefix (-$1.46, -USD 5) or after it ($-1,950.25, USD -5, USD-5), with or without grouping commas; occasional reversals written as a negative credit / debit and refunded (negative) charges; one row in five of those with a conversion states a rate of exactly one (1, 1.0, 1.00, 1.000, $1.00) under every conversion mode; one statement in six has one amount / credit / debit / balance / rate / secondary-amount / charge cell in a notation okane's number grammar does not know or with trailing junk: 6'540.35, 1 234.56 (space or no-break space), 12.50-, (12.50), +12.50, 1.234,56, 12,50, 1,23,456.78, 12..5, 12.50*, 12.50 EUR*, 5 USD EUR, --5, 1.5e0, 12.5x - which must be refused with the number error or booked as exactly that figure) x asset/liability x both row orders, with 0-4 rewrite rules; through load_from_yaml, select, import::import(Csv), to_double_entry, the printing of ImportCmd and report::process over funding + printed text; non-trivial = import succeeded, some amount is non-zero and at least one optional column is used; distinct by YAML + CSV".into();
+    st.rule = "CSV statements generated from 1-8 chronological rows (starting up to 12 days before a calendar boundary drawn on purpose - the days around New Year whose ISO week belongs to the neighbouring year, 1 January / 31 December, leap days, 28 February / 1 March of 1900 and 2100, month ends, years 1900-2100 - and running across it) with a running balance per commodity, free-text cells (payee, category, note, ignored columns; 3 in 8 for the cell of the first column, 1 in 8 elsewhere) beginning with # \" ' ; = + - @ space tab U+FEFF // % | or a comma, written under a random layout (columns shuffled with junk columns; fields by index / label / template; delimiter default , ; tab; 0-2 skipped head lines; four date formats; amount or credit/debit columns; optional category, note, balance, commodity, rate, secondary amount, secondary commodity, charge columns; plain / grouped / `$`-prefixed / commodity-code-prefixed / commodity-suffixed numbers; under the prefixed styles amount, credit, debit, balance, charge and secondary-amount cells carry the minus sign before the prefix (-$1.46, -USD 5) or after it ($-1,950.25, USD -5, USD-5), with or without grouping commas; occasional reversals written as a negative credit / debit and refunded (negative) charges; one row in five of those with a conversion states a rate of exactly one (1, 1.0, 1.00, 1.000, $1.00) under every conversion mode; one statement in six has one amount / credit / debit / balance / rate / secondary-amount / charge cell in a notation okane's number grammar does not know or with trailing junk: 6'540.35, 1 234.56 (space or no-break space), 12.50-, (12.50), +12.50, 1.234,56, 12,50, 1,23,456.78, 12..5, 12.50*, 12.50 EUR*, 5 USD EUR, --5, 1.5e0, 12.5x - which must be refused with the number error or booked as exactly that figure) x asset/liability x both row orders, with 0-4 rewrite rules; through load_from_yaml, select, import::import(Csv), to_double_entry, the printing of ImportCmd and report::process over funding + printed text; non-trivial = import succeeded, some amount is non-zero and at least one optional column is used; distinct by YAML + CSV".into();
     st.assumptions.push("numbers have at most 9 significant digits and scale <= 4; rates come from a pool of products of powers of 2 and 5 so that Decimal division is exact".into());
     st.assumptions.push("the csv crate's tokenisation (after skip.head, with the configured delimiter) and chrono's date parsing are oracles: the model receives the records and the day numbers they produce".into());
     st.assumptions.push("white space in note fields is ASCII".into());
